@@ -70,7 +70,8 @@ _l("C12", "4 C12", "RatesOf (Ledger.tla) states the combination rule per era (1%
    "winner tables must equal the fault-free run's.")
 _l("C13", "4 C13", "MC_Ledger proves AdmissionOK; conversions between all ordered pairs of asset classes at every height around each activation (live and all-era "
    "schedules), funded and unfunded, with zero rates, unavailable averages (also with the API's rich-list methods called between blocks), every small-cap ticker and "
-   "batches mixing a PEG destination with other transactions, are decided by TLC from the observed pre-state at the execution height.")
+   "batches mixing a PEG destination with other transactions, are decided by TLC from the observed pre-state at the execution height. Kernel: the refusal rule "
+   "of Ledger.Convert (MC_Convert.RefusedIff) is compared by TLC with the real conversions.Convert on 31 104 argument tuples around the built-in PIP-10 activation.")
 
 _l("C14", "4 C14", "StakeOf / StakePayouts (Ledger.tla) state the rule: stake from MIN(previous, current snapshot) of non-PEG assets in USD, floor shares of "
    "4,500 PEG x 144, dust to a top staker, full stake when below the cap; chains crossing 144 / 288 (/432) with movements between snapshots, late funds, new "
